@@ -179,7 +179,7 @@ def run(ck):
         data = open(path, "rb").read()
         r = run_one([cc] + flags, stdin=data, env=base_env)
         res.append(("stdin-vs-path", (r[0], r[1], b"")))
-        outp = path + ".out"
+        outp = os.path.join(d, "%s.%s.out" % (common.sha(path)[:8], os.path.basename(path)))   # never inside /repo
         r = run_one([cc] + flags + ["-o", outp, path], env=base_env)
         body = open(outp, "rb").read() if os.path.exists(outp) else b""
         res.append(("-o-vs-stdout", (r[0], body if r[0] == 0 else ref[1], b"")))
